@@ -13,6 +13,12 @@ package main
 // connect, request end after the last byte, reload call before the call, return after it) and
 // handed to Coq, where the model must accept it (C07_Model.accepts) and the executable spec
 // must hold on it (C07_Model.spec_trace).
+//
+// Drain timeouts: the process log is read in every mode; a `[ERROR] Stopping <addr>: context
+// deadline exceeded` line written by Instance.Stop of the instance being replaced becomes an
+// EDrain event of the history (the model's LStopTimeout step).  Lineages with `hold` reloads keep
+// a half-sent request open on the old instance across the call (GracefulTimeout 3-20 ms): the
+// reload must succeed all the same, the held request is completed afterwards.
 
 import (
 	"bufio"
@@ -44,6 +50,7 @@ type c07Reload struct {
 	Var   int    `json:"var,omitempty"`  // which concrete way of failing / which block carries the failure
 	GapUs int    `json:"gap_us"`         // pause before the call
 	ShutErr bool `json:"shut_err,omitempty"` // valid configuration whose OnShutdown callback returns an error
+	Hold    bool `json:"hold,omitempty"`     // a half-sent request is held open on the old instance across the call (drain timeout)
 }
 
 type c07In struct {
@@ -383,6 +390,7 @@ type c07Obs struct {
 	Events   []string `json:"events,omitempty"`
 	Note     string   `json:"note,omitempty"`
 	StallMs  int64    `json:"longest_scheduler_stall_ms,omitempty"`
+	Drains   int      `json:"drain_timeouts,omitempty"`
 	WaitEarly bool    `json:"wait_returned_early,omitempty"`
 	WaitStuck bool    `json:"wait_stuck_after_stop,omitempty"`
 	Invalid   bool    `json:"harness_invalid,omitempty"`
@@ -405,6 +413,28 @@ type c07Lineage struct {
 	timeouts int64        // requests that ended in a client timeout: the lineage is cut short after 2
 	allowed  map[int]bool // slots clients may target (guarded by mu)
 	inflight [4]int64     // requests in flight per slot
+}
+
+// drain timeouts logged by Instance.Stop of the instance being replaced ("[ERROR] Stopping
+// <listen address>: context deadline exceeded"), per listen-address slot, while a reload call is
+// in progress (the process log is read in every mode; see c07LogWriter)
+var (
+	c07DrainMu   sync.Mutex
+	c07DrainOn   bool
+	c07Drained   map[int]bool
+	c07StopErrs  []string // other errors logged by Instance.Stop during the call
+)
+
+func c07DrainBegin() {
+	c07DrainMu.Lock()
+	c07DrainOn, c07Drained, c07StopErrs = true, map[int]bool{}, nil
+	c07DrainMu.Unlock()
+}
+func c07DrainEnd() (map[int]bool, []string) {
+	c07DrainMu.Lock()
+	defer c07DrainMu.Unlock()
+	c07DrainOn = false
+	return c07Drained, c07StopErrs
 }
 
 func (l *c07Lineage) now() int64 { return int64(time.Since(l.t0)) }
@@ -459,6 +489,66 @@ func (l *c07Lineage) request(t c07Target, force bool) {
 	l.mu.Unlock()
 }
 
+// holdOpen starts a request on a fresh connection, sends its header only in part and returns the
+// function that sends the rest and reads the response; the request is recorded like any other
+// (start stamped before the connect, end after the last byte)
+func (l *c07Lineage) holdOpen(t c07Target) func() {
+	l.mu.Lock()
+	k := len(l.reqs)
+	l.reqs = append(l.reqs, c07Req{K: k, Addr: t.maddr, Site: t.site})
+	ts := l.now()
+	l.reqs[k].StartNs = ts
+	l.mu.Unlock()
+	atomic.AddInt64(&l.inflight[t.slot], 1)
+	conn, err := net.DialTimeout("tcp", c07IP(t.slot)+":"+strconv.Itoa(t.port), 3*time.Second)
+	if err == nil {
+		conn.SetDeadline(time.Now().Add(20 * time.Second))
+		_, err = conn.Write([]byte(fmt.Sprintf("GET /held%d HTTP/1.1\r\nHost: %s\r\n", k, c07Host(t.slot, t.site))))
+		// let the old server's accept loop take the connection and start reading the request
+		time.Sleep(4 * time.Millisecond)
+	}
+	return func() {
+		defer atomic.AddInt64(&l.inflight[t.slot], -1)
+		r := c07Req{K: k, Addr: t.maddr, Site: t.site, StartNs: ts}
+		if err == nil {
+			defer conn.Close()
+			_, err = conn.Write([]byte("Connection: close\r\n\r\n"))
+		}
+		var resp *http.Response
+		var body []byte
+		if err == nil {
+			resp, err = http.ReadResponse(bufio.NewReader(conn), &http.Request{Method: "GET"})
+		}
+		if err == nil {
+			body, err = io.ReadAll(resp.Body)
+			resp.Body.Close()
+		}
+		r.EndNs = l.now()
+		if err != nil {
+			r.Err = c07ErrClass(err) + ": " + err.Error()
+		} else {
+			r.Status = resp.StatusCode
+			var cfg, slot, site, blen int
+			if n, _ := fmt.Sscanf(resp.Header.Get("X-C07"), "%d %d %d %d", &cfg, &slot, &site, &blen); n != 4 || resp.StatusCode != 200 {
+				r.Marker, r.SiteSeen, r.Complete = 99999, 99999, false
+			} else {
+				r.Marker = cfg
+				if resp.Header.Get("X-Cfg") != strconv.Itoa(cfg) {
+					r.Marker = 99998
+				}
+				r.SiteSeen = site
+				if slot != t.slot {
+					r.SiteSeen = 99997
+				}
+				r.Complete = bytes.Equal(body, c07Body(cfg, slot, site, blen)) && blen >= l.in.BodyLen
+			}
+		}
+		l.mu.Lock()
+		l.reqs[k] = r
+		l.mu.Unlock()
+	}
+}
+
 // socket inodes among the descriptors of this process
 func c07FdInodes() map[uint64]bool {
 	out := map[uint64]bool{}
@@ -511,7 +601,29 @@ func (l *c07Lineage) observe(slots []int, full bool) {
 		}
 		a := l.slotAddr[sl]
 		l.add(ts, 1, cApp("EObs", cNat(a), cBool(open), cNat(l.slotGen[sl])), fmt.Sprintf("obs a=%d open=%v gen=%d", a, open, l.slotGen[sl]))
+		if full && open {
+			// no reload call is in progress (full observations are made by the main goroutine between
+			// the calls): how many descriptors of the process refer to this listening socket
+			n := c07FdCount(l.slotIno[sl])
+			l.add(l.now(), 1, cApp("EFds", cNat(a), cNat(n)), fmt.Sprintf("obs a=%d descriptors=%d", a, n))
+		}
 	}
+}
+
+// number of descriptors of this process that refer to the socket with the given inode
+func c07FdCount(ino uint64) int {
+	ents, err := os.ReadDir("/proc/self/fd")
+	if err != nil {
+		return 0
+	}
+	want := "socket:[" + strconv.FormatUint(ino, 10) + "]"
+	n := 0
+	for _, e := range ents {
+		if t, err := os.Readlink("/proc/self/fd/" + e.Name()); err == nil && t == want {
+			n++
+		}
+	}
+	return n
 }
 
 func c07Inter(a, b []int) []int {
@@ -567,14 +679,14 @@ func c07RunLineage(in *c07In) (res Result) {
 
 	text0 := c07Config(in, 0, in.Slots0, "ok", 0, blockedPort)
 	var inst *casket.Instance
+	prevLog := log.Writer()
+	log.SetOutput(c07LogWriter{})
+	defer log.SetOutput(prevLog)
 	if in.Signal {
 		c07SignalSetup()
-		prevLog := log.Writer()
-		log.SetOutput(c07LogWriter{})
 		c07SigText.Store(text0)
 		defer func() {
 			c07SigText.Store("")
-			log.SetOutput(prevLog)
 		}()
 		var input casket.Input
 		input, err = casket.LoadCasketfile("http")
@@ -736,8 +848,10 @@ func c07RunLineage(in *c07In) (res Result) {
 		}
 		fate := 0
 		switch rl.Kind {
-		case "parse", "setup", "startup":
+		case "parse", "setup":
 			fate = 1
+		case "startup":
+			fate = 3 // fails in a startup callback of the new instance: Restart returns an error (ERet 1)
 		case "listen":
 			fate = 2
 			newAddrs = append(newAddrs, c07BlockedAddr)
@@ -766,6 +880,14 @@ func c07RunLineage(in *c07In) (res Result) {
 		// sampler: the listening sockets of addresses served before and after exist throughout
 		sampDone := make(chan struct{})
 		sampStop := make(chan struct{})
+		// a request whose header is only half sent sits on a connection of the OLD server across the
+		// call: its Shutdown cannot drain it within the graceful timeout
+		var finishHeld func()
+		if rl.Hold && len(stable) > 0 {
+			hs := stable[0]
+			finishHeld = l.holdOpen(c07Target{slot: hs, site: 0, maddr: l.slotAddr[hs], port: l.slotPort[hs]})
+		}
+		c07DrainBegin()
 		tcall := l.now()
 		l.add(tcall, 1, cApp("ECall", cNatList(newAddrs), cNat(fate)), fmt.Sprintf("call %d %s slots=%v", n, rl.Kind, rl.Slots))
 		go func() {
@@ -798,6 +920,19 @@ func c07RunLineage(in *c07In) (res Result) {
 		}
 		close(sampStop)
 		<-sampDone
+		drained, stopErrs := c07DrainEnd()
+		// the old servers are stopped in the order of the old configuration's addresses; a drain
+		// timeout is logged by Instance.Stop and changes nothing else
+		for _, sl := range curSlots {
+			if drained[sl] {
+				a := l.slotAddr[sl]
+				l.add(tret, 0, cApp("EDrain", cNat(a)), fmt.Sprintf("drain timeout of the old server at a=%d", a))
+				obs.Drains++
+			}
+		}
+		if len(stopErrs) > 0 {
+			obs.Note += fmt.Sprintf("reload %d: Instance.Stop logged %v; ", n, stopErrs)
+		}
 		r := 0
 		if rerr != nil {
 			r = 1
@@ -820,6 +955,9 @@ func c07RunLineage(in *c07In) (res Result) {
 			setTargets(curSlots)
 		}
 		l.add(tret, 1, cApp("ERet", cNat(r)), fmt.Sprintf("ret %d -> %d", n, r))
+		if finishHeld != nil {
+			finishHeld()
+		}
 		l.observe(curSlots, true)
 		if in.Mode == "sync" {
 			if rerr == nil {
@@ -1081,11 +1219,11 @@ func c07GenOne(r *Rand, mode string, nrel int) *c07In {
 	stick := r.Chance(50) // lineage keeps its address set
 	in.Slots0 = c07Subset(r, true)
 	cur := in.Slots0
-	// A listen-time failure leaks the descriptors startServers had dup'ed before the failing
-	// Listen (they are never closed: the "failed load leaves nothing behind" property, C08).  If
-	// such an address is dropped later its socket stays in LISTEN with nobody accepting and
-	// clients in flight there hang until their own timeout instead of being refused; that is
-	// outside this property's statement and costs 6 s per case, so lineages keep those addresses.
+	// Before 51fc21a a listen-time failure leaked the descriptors startServers had dup'ed before the
+	// failing Listen; a leaked address that is dropped later stays in LISTEN with nobody accepting
+	// and clients in flight there hang until their own timeout (6 s per case).  startServers closes
+	// them now (modelled: LListenFail; checked through the EFds descriptor counts), but lineages
+	// still keep such addresses so that a regression there costs a disagreement, not minutes.
 	var leaky []int
 	for i := 0; i < nrel; i++ {
 		rl := c07Reload{Var: r.Intn(64)}
@@ -1156,6 +1294,38 @@ func c07Gen(r *Rand, tier string) []interface{} {
 	for i := 0; i < nsync; i++ {
 		out = append(out, c07GenOne(r, "sync", 2+r.Intn(10)))
 	}
+	// drain timeouts: a half-sent request is held open on the instance being replaced while the
+	// graceful timeout is a few milliseconds; the reload must succeed all the same, every old server
+	// must be stopped and requests after the return get the new configuration
+	nhold := 12
+	if tier == "thorough" {
+		nhold = 120
+	}
+	for i := 0; i < nhold; i++ {
+		in := c07GenOne(r, []string{"sync", "sync", "load"}[i%3], 2+r.Intn(5))
+		in.GraceMs = []int{3, 8, 20}[r.Intn(3)]
+		if len(in.Slots0) < 2 && r.Chance(70) {
+			in.Slots0 = []int{0, 1 + r.Intn(2)}
+			if r.Chance(50) {
+				in.Slots0[0], in.Slots0[1] = in.Slots0[1], in.Slots0[0]
+			}
+			for j := range in.Reloads {
+				in.Reloads[j].Slots = append([]int(nil), in.Slots0...)
+			}
+		}
+		any := false
+		for j := range in.Reloads {
+			if r.Chance(65) {
+				in.Reloads[j].Hold = true
+				any = true
+			}
+		}
+		if !any {
+			in.Reloads[0].Hold = true
+		}
+		in.Signal = i%4 == 3
+		out = append(out, in)
+	}
 	// the same through the SIGUSR1 handler
 	for i := 0; i < nsig; i++ {
 		in := c07GenOne(r, []string{"load", "sync"}[i%2], 2+r.Intn(8))
@@ -1168,7 +1338,7 @@ func c07Gen(r *Rand, tier string) []interface{} {
 func init() {
 	register(&Property{
 		ID: "C07", Imports: "V.Lib V.C07_Model", Judge: "judge", Shard: 8,
-		Rule: "every case = one real lineage in-process on loopback: casket.Start + 2..20 Instance.Restart (valid / failing at parse, directive setup, startup callback, listen time; listen addresses 127.0.0.{1,2,3}:0 kept, dropped or added; 1-2 virtual hosts per address) under 2-8 concurrent fresh-connection clients (load) or with requests strictly between the reloads (sync); handler think time 0-20 ms, bodies 0-70 kB with Content-Length or chunked, GracefulTimeout 1 ms-5 s; the whole observed history is judged. non-trivial = at least one request overlaps a reload call (load) / at least one reload and one request (sync); distinct = distinct scenario (parameters + seed)",
+		Rule: "every case = one real lineage in-process on loopback: casket.Start + 2..20 Instance.Restart (valid / failing at parse, directive setup, startup callback, listen time; listen addresses 127.0.0.{1,2,3}:0 kept, dropped or added; 1-2 virtual hosts per address) under 2-8 concurrent fresh-connection clients (load) or with requests strictly between the reloads (sync); handler think time 0-20 ms, bodies 0-70 kB with Content-Length or chunked, GracefulTimeout 1 ms-5 s; drain-timeout lineages (GracefulTimeout 3-20 ms, a half-sent request held open on the instance being replaced across reload calls); drain timeouts logged by Instance.Stop are events of the history; the whole observed history is judged. non-trivial = at least one request overlaps a reload call (load) / at least one reload and one request (sync); distinct = distinct scenario (parameters + seed)",
 		Gen: c07Gen,
 		Decode: func(raw json.RawMessage) (interface{}, error) {
 			in := &c07In{}
@@ -1274,6 +1444,19 @@ func (c07LogWriter) Write(p []byte) (int, error) {
 			case c07SigCh <- "":
 			default:
 			}
+		case strings.Contains(line, "[ERROR] Stopping 127.0.0."):
+			rest := line[strings.Index(line, "[ERROR] Stopping 127.0.0.")+25:]
+			var oct int
+			fmt.Sscanf(rest, "%d", &oct)
+			c07DrainMu.Lock()
+			if c07DrainOn {
+				if strings.Contains(rest, "context deadline exceeded") && oct >= 1 {
+					c07Drained[oct-1] = true
+				} else {
+					c07StopErrs = append(c07StopErrs, rest)
+				}
+			}
+			c07DrainMu.Unlock()
 		case strings.Contains(line, "[ERROR] SIGUSR1: "):
 			select {
 			case c07SigCh <- line[strings.Index(line, "[ERROR] SIGUSR1: ")+17:]:
